@@ -258,3 +258,59 @@ def normalize_files(data, ref_files):
     for d in data.values():
         _walk(d, fix)
     return ["file %s is %s of the reference tree" % (n, o) for n, o in sorted(mapping.items())]
+
+
+# ---- parameter order ------------------------------------------------------------------------------------------------------------------
+def normalize_param_order(data, ref_vars):
+    """A known function whose parameters were merely reordered (same names, same types, another order) gets the reference order
+    back: its parameter locals are renumbered and the argument lists of all its call sites are permuted.  Rules may then keep
+    referring to 'argument 2 of save_backup_file'."""
+    done = []
+    by_id = {raw["id"]: raw for d in data.values() for raw in d["fns"]}
+    for fid, raw in by_id.items():
+        ref = ref_vars.get(fid)
+        if not ref:
+            continue
+        n = raw.get("arg_count", 0)
+        rp = [(r[0], r[1]) for r in sorted((r for r in ref if r[2] is not None), key=lambda r: r[2])]
+        cp = {}
+        for e in raw.get("dbg", []):
+            if e.get("arg") is not None and e.get("pl") and not e["pl"].get("p"):
+                cp[e["arg"]] = (e["name"], raw["locals"][e["pl"]["l"]]["ty"])
+        if len(rp) != n or len(cp) != n or n < 2:
+            continue
+        cur = [cp[i] for i in range(1, n + 1)]
+        if cur == rp or sorted(cur) != sorted(rp) or len(set(cur)) != n:
+            continue
+        # perm[new position (1-based)] = reference position
+        perm = {i + 1: rp.index(cur[i]) + 1 for i in range(n)}
+
+        def fix(x):
+            if isinstance(x, dict):
+                if isinstance(x.get("l"), int) and x["l"] in perm:
+                    x["l"] = perm[x["l"]]
+                if isinstance(x.get("index"), int) and x["index"] in perm:
+                    x["index"] = perm[x["index"]]
+                if isinstance(x.get("arg"), int) and x["arg"] in perm and "name" in x:
+                    x["arg"] = perm[x["arg"]]
+        for key in ("blocks", "dbg", "promoted"):
+            if key in raw:
+                _walk(raw[key], fix)
+        new_locals = list(raw["locals"])
+        for i in range(1, n + 1):
+            new_locals[perm[i]] = raw["locals"][i]
+        raw["locals"] = new_locals
+        inv = {v: k for k, v in perm.items()}
+        for g in by_id.values():
+            for b in g["blocks"]:
+                t = b["term"]
+                if t.get("k") == "call" and len(t.get("args", [])) == n:
+                    f_ = t.get("func") or {}
+                    rp_ = (f_.get("res") or {}).get("rpath") or f_.get("fn")
+                    if rp_ == fid:
+                        t["args"] = [t["args"][inv[j] - 1] for j in range(1, n + 1)]
+                        if isinstance(t.get("argtys"), list) and len(t["argtys"]) == n:
+                            t["argtys"] = [t["argtys"][inv[j] - 1] for j in range(1, n + 1)]
+        done.append("parameters of %s are in the order (%s); the reference order is (%s)" % (
+            fid.split("::")[-1], ", ".join(c[0] for c in cur), ", ".join(r[0] for r in rp)))
+    return done
